@@ -273,7 +273,62 @@ func stressBatch(r *rng, thorough bool) stressResult {
 			return stressResult{Kind: "batch", Runs: it + 1, Witness: witness}
 		}
 	}
-	return stressResult{OK: true, Kind: "batch", Runs: runs}
+	// stop-on-error with a long tail: item 0 fails while item 1 is still in flight and succeeds later; the tail
+	// behind them must never run (only items already picked up may). A stop flag that is lowered again by the late
+	// success, or only checked at submission, shows up as (nearly) the whole tail being executed.
+	tails := 6
+	if thorough {
+		tails = 40
+	}
+	for it := 0; it < tails; it++ {
+		c := 2 + r.intn(3)
+		n := 20000 + r.intn(20000)
+		var executed int32
+		failed := make(chan struct{})
+		var once sync.Once
+		var started sync.WaitGroup // the first c items are all in flight before item 0 fails
+		started.Add(c)
+		node := flyt.NewBatchNode().WithBatchConcurrency(c).WithBatchErrorHandling(false).
+			WithPrepFunc(func(ctx context.Context, s *flyt.SharedStore) ([]flyt.Result, error) {
+				items := make([]flyt.Result, n)
+				for i := range items {
+					items[i] = flyt.R(i)
+				}
+				return items, nil
+			}).
+			WithExecFunc(func(ctx context.Context, item flyt.Result) (flyt.Result, error) {
+				i := item.Value().(int)
+				atomic.AddInt32(&executed, 1)
+				if i < c {
+					started.Done()
+					started.Wait()
+				}
+				switch {
+				case i == 0:
+					defer once.Do(func() { close(failed) })
+					return flyt.Result{}, fmt.Errorf("item 0 fails")
+				case i < c:
+					<-failed // in flight while the failure is handled …
+					time.Sleep(time.Duration(1+i) * time.Millisecond)
+					return flyt.R(i), nil // … and succeeding afterwards
+				}
+				return flyt.R(i), nil
+			}).
+			WithPostFunc(func(ctx context.Context, s *flyt.SharedStore, items, res []flyt.Result) (flyt.Action, error) {
+				return "done", nil
+			})
+		ok := withTimeout(30*time.Second, func() { flyt.Run(context.Background(), node, flyt.NewSharedStore()) })
+		ex := int(atomic.LoadInt32(&executed))
+		// at most the c items that were in flight, plus what other workers picked up in the instant between item 0's
+		// exec returning and its failure being recorded (a handful at the very most)
+		if os.Getenv("DBG") != "" { fmt.Fprintln(os.Stderr, "executed", ex, "of", n, "c", c) }
+		if !ok || ex > c+64 {
+			return stressResult{Kind: "batch", Runs: runs + it + 1, Witness: map[string]any{
+				"what": "stop-on-error: items far behind the failing one were executed after the failure had been handled",
+				"executed": ex, "n": n, "c": c, "terminated": ok}}
+		}
+	}
+	return stressResult{OK: true, Kind: "batch", Runs: runs + tails}
 }
 
 func stressMain(args []string) {
